@@ -204,6 +204,13 @@ def run(ctx, rep):
         good = bool(oks) and all(rules.origins(q, op_local(x[3]["ops"][0]), transparent=set()) == {("call", c.bb)} for x in oks)
         rep.ob("C19.result-pass-through", "process_library_jump_request returns Ok(<foreign result>) verbatim",
                "ok" if good else "violated", "", c.span, fn=q.path)
+        # once the foreign function has returned, its result is handed back whatever it is: no failure exit after the call
+        after = q.reachable(c.target) if c.target is not None else set()
+        fails = [x for x in agg_sites(q, "core::result::Result", "Err") if x[2]["l"] == 0 and x[0] in after]
+        fails += [x for x in q.calls_to("core::ops::try_trait::FromResidual::from_residual") if x.bb in after and x.dst["l"] == 0]
+        rep.ob("C19.result-pass-through", "every return after the foreign call is Ok(<its result>): a result of any of the six kinds (value, no value, error) is passed on",
+               "violated" if fails else "ok", "a failure exit follows the foreign call: some results are rejected instead of pushed" if fails else "", c.span, fn=q.path,
+               key="C19.result-pass-through|Program::process_library_jump_request|no-failure-after-call")
     for pat in ("libloading::safe::Library::new", "libloading::safe::Library::get"):
         for c in q.calls_to(pat):
             der = q.derived([c.dst["l"]], through_call=lambda cc, idx: True if cc.matches(("anyhow::Context::context", "anyhow::Context::with_context")) else None)
